@@ -52,6 +52,20 @@ func (c06) Gen(rt *rapid.T, thorough bool) any {
 				}
 			}
 		}
+		if rapid.IntRange(0, 2).Draw(rt, "roll_overflow") == 0 {
+			// more items than the buffer holds while the worker is behind: the configured policy
+			// decides, and under the discarding policies no log call waits
+			s.Overflow, s.BufferSize = true, 100
+			s.Knobs.Starve = []string{"go@plugin_logger"}
+			s.Producers = nil
+			for p := 0; p < 2; p++ {
+				var ops []AOp
+				for i := 0; i < 130; i++ {
+					ops = append(ops, AOp{Lvl: "INFO", Raw: i%4 == 3, Size: 3})
+				}
+				s.Producers = append(s.Producers, ops)
+			}
+		}
 		return s
 	}
 	if rapid.Bool().Draw(rt, "sequential") {
@@ -364,6 +378,10 @@ func (c06) runRoll(x *Exec, s *AsyncScn) {
 			return
 		}
 	}
+	if s.Policy != "Block" && x.Sim.Probes["blocked:producer"] > 0 {
+		o.violate("waits-for-appender", "C06/roll/log-call-waits-for-appender/"+s.Policy, "a log call on the async RollingFile logger (policy %s) waited on the full buffer instead of discarding", s.Policy)
+		return
+	}
 	if !x.do("stopper", l.Stop) {
 		o.violate("stop-stuck", "C06/roll/stop-did-not-return", "Stop did not return: %v", x.clientsStuck())
 		return
@@ -411,6 +429,9 @@ func (c06) runRoll(x *Exec, s *AsyncScn) {
 					continue
 				}
 				want := sb.Raw || !s.Separate || (name == "app.log") == (sb.Code < levelCodes["WARN"])
+				if s.Overflow && s.Policy != "Block" && seen[sb.ID] <= 1 && (want || seen[sb.ID] == 0) {
+					continue // with more items than capacity the discarding policies may drop; order and no duplicates still hold
+				}
 				if n := seen[sb.ID]; (want && n != 1) || (!want && n != 0) {
 					o.violate("roll-conservation", "C06/roll/item-count-in-file/"+name, "%s (raw=%v level=%s) appears %d times in %s, expected %v (nothing can be dropped: %d items, capacity %d); files: %s", sb.ID, sb.Raw, sb.Level, n, name, want, totalOps(s), s.BufferSize, fileSummary(files))
 					return
